@@ -49,6 +49,16 @@ spec fn same_header_fields(a: Meta, b: Meta) -> bool {
 spec fn lock_trace(l: TxLock) -> Seq<IoEv> {
     match l { TxLock::Rw(g) => g@.trace(), TxLock::Ro(_) => Seq::empty() }
 }
+spec fn lock_file(l: TxLock) -> File
+    recommends l is Rw,
+{
+    match l { TxLock::Rw(g) => g@, TxLock::Ro(_) => arbitrary() }
+}
+// the header record (bytes 32..104 of the page) is complete once 104 bytes of the page have been written
+spec fn failed_header_write_reached_the_file(t0: Seq<IoEv>, l: TxLock, ps: int) -> bool {
+    lock_trace(l).len() > t0.len()      // an event of THIS call
+        && (lock_trace(l).last() matches IoEv::WriteFailed { off } && off < 2 * ps) && lock_file(l).short_prefix() >= 104
+}
 spec fn meta_frame(a: Meta, b: Meta) -> bool {
     a.meta_page == b.meta_page && a.magic == b.magic && a.version == b.version && a.pagesize == b.pagesize
         && a.root == b.root && a.tx_id == b.tx_id
